@@ -53,7 +53,8 @@ pub fn parse_csv_row(row: &str) -> Vec<String> {
             ReadFieldResult::OutputFull => continue,
             ReadFieldResult::InputEmpty => true,
             ReadFieldResult::Field { .. } => false,
-            ReadFieldResult::End => true,
+            // Every field has already been returned; `End` carries no further cell.
+            ReadFieldResult::End => break,
         };
         features.push(String::from_utf8(std::mem::take(&mut field)).unwrap());
         if end {
